@@ -467,7 +467,8 @@ def gen_c15(r, tier):
     return {'config': {'clients': clients,
                        'tmp_dir_configured': r.chance(0.75),
                        'tmp_dir_late': r.chance(0.25),
-                       'share_option_lists': r.chance(0.3)}, 'ops': ops}
+                       'share_option_lists': r.chance(0.3),
+                       'env_fail_dir': r.chance(0.2)}, 'ops': ops}
 
 
 def gen_plan(prop, r, tier, run):
@@ -603,6 +604,13 @@ def execute(plan):
             with seam:
                 late = (plan['config'].get('tmp_dir_late')
                         and plan['config'].get('tmp_dir_configured', True))
+                if plan['config'].get('env_fail_dir'):
+                    # TDDA_FAIL_DIR appears in the environment after tdda
+                    # was imported (exported by a wrapper script, set by a
+                    # fixture): the documented effect is on import only
+                    os.makedirs(W.path('envfail'), exist_ok=True)
+                    os.environ['TDDA_FAIL_DIR'] = W.path('envfail')
+                    ctx.stats['faults']['TDDA_FAIL_DIR_set_after_import'] += 1
                 if late:
                     # the configured directory is only created by the
                     # suite's set-up, after the test objects are constructed
@@ -988,7 +996,8 @@ def run_assert(ctx, op):
     apply_stamp(ctx, op, rpaths, apaths)
     mode = ctx.model.lookup(op['kind'])
     roots = [W.path(d) for d in ('ref', 'fail', 'systmp', 'cwd', 'canary',
-                                 'home', 'tmp', 'data', 'failA', 'failB')]
+                                 'home', 'tmp', 'data', 'failA', 'failB',
+                                 'envfail')]
     before = fsaudit.snapshot(roots)
     fault = None
     read_fault = None
